@@ -167,7 +167,7 @@ func (ex *Exec) execFrom(fr *Frame, b *ssa.BasicBlock, start int, st *State, k r
 			}
 			fr.defers = append(fr.defers, d)
 		case *ssa.Go:
-			ex.unsupp("go statement in %s", fr.fn.Name())
+			ex.doSpawn(fr, st, x)
 		default:
 			if v, ok := ins.(ssa.Value); ok {
 				r := ex.evalInstr(fr, st, ins, v)
@@ -1051,5 +1051,64 @@ func (ex *Exec) checkClosurePre(fr *Frame, st *State, site *ssa.MakeClosure, fn 
 			continue // mentions parameters: checked by the callback specification instead
 		}
 		ex.oblige(st, "closure-pre@"+fnKeyOf(fn), r.Label, mergeProps(r.Props, ex.safetyProps(fr)[1:]), g, site.Pos(), fnKeyOf(fr.fn))
+	}
+}
+
+// doSpawn: `go f(args)`. The spawned function runs concurrently with the rest of the spawner:
+// its precondition is an obligation of the spawner at the spawn, none of its effects is
+// assumed, and the variables it captured are shared from now on - the spawner must not touch
+// them again (obligation at every later load / store), which is how a loop variable hoisted
+// out of an accept loop shows up.
+func (ex *Exec) doSpawn(fr *Frame, st *State, g *ssa.Go) {
+	common := g.Common()
+	var callee *ssa.Function
+	var bindings []Value
+	var args []Value
+	for _, a := range common.Args {
+		args = append(args, ex.val(fr, st, a))
+	}
+	switch v := common.Value.(type) {
+	case *ssa.MakeClosure:
+		cv := ex.val(fr, st, v)
+		if cv.Clo != nil {
+			callee, _ = cv.Clo.Fn.(*ssa.Function)
+			bindings = cv.Clo.Bindings
+		}
+	case *ssa.Function:
+		callee = v
+	default:
+		if c := common.StaticCallee(); c != nil {
+			callee = c
+		}
+	}
+	if callee == nil {
+		ex.unsupp("go statement with a dynamic callee in %s", fr.fn.Name())
+	}
+	key := fnKeyOf(callee)
+	st.Trace = append(st.Trace, "go "+key)
+	if c := ex.specs.Contracts[key]; c != nil {
+		c.Used = true
+		ex.usedSpecs["func "+key] = true
+		env := ex.contractEnv(c, callee, args, bindings, st, fr)
+		for _, r := range c.Requires {
+			ex.oblige(st, "spawn-pre@"+key, r.Label, mergeProps(r.Props, ex.safetyProps(fr)[1:]), env.boolTerm(r.Expr), g.Pos(), fnKeyOf(fr.fn))
+		}
+		if len(c.SpawnSets) > 0 {
+			env.old = st.clone()
+			tmp := &Contract{Ghosts: c.SpawnSets}
+			ex.applyGhostSets(env, tmp, st)
+		}
+	}
+	for i, b := range bindings {
+		if b.Loc != nil && b.Loc.Kind == "cell" {
+			if st.Shared == nil {
+				st.Shared = map[*Cell]string{}
+			}
+			name := "?"
+			if i < len(callee.FreeVars) {
+				name = callee.FreeVars[i].Name()
+			}
+			st.Shared[b.Loc.Cell] = name
+		}
 	}
 }
